@@ -100,6 +100,10 @@ class CallMixin:
         key = (mi.name, name)
         if key in self.const_cache:
             return self.const_cache[key]
+        tbl = self.class_table_const(mi, mi.consts[name])
+        if tbl is not None:
+            self.const_cache[key] = tbl
+            return tbl
         self.ctx.append((mi, None, None))
         try:
             tmp = State()
@@ -112,6 +116,62 @@ class CallMixin:
             self.ctx.pop()
         self.const_cache[key] = v
         return v
+
+    def class_table_const(self, mi, node):
+        """`dict((cls.attr, cls) for cls in CLASSES)` with CLASSES a module-level list of class names: a dispatch table.
+        The engine does not track which key maps to which class; a lookup yields 'one of these classes or None'."""
+        if not (isinstance(node, ast.Call) and isinstance(node.func, ast.Name) and node.func.id == "dict" and len(node.args) == 1
+                and isinstance(node.args[0], ast.GeneratorExp) and len(node.args[0].generators) == 1):
+            return None
+        gen = node.args[0].generators[0]
+        if not isinstance(gen.iter, ast.Name) or gen.iter.id not in mi.consts:
+            return None
+        lst = mi.consts[gen.iter.id]
+        if not (isinstance(lst, ast.List) and lst.elts and all(isinstance(e, ast.Name) and e.id in mi.classes for e in lst.elts)):
+            return None
+        return V(TPy("class_table"), ("class_table", [mi.classes[e.id] for e in lst.elts]))
+
+    def construct_any(self, classes, flag, args, kwargs, st, node) -> V:
+        """Call of a class picked from a dispatch table: some class of the table is instantiated.  Modular argument:
+        every candidate constructor must carry a contract whose only exceptional exit is ValueError and which writes
+        nothing but the new object; those contracts become dependencies of this unit (verified in the same check)."""
+        self.may_raise(st, z3.Not(flag), "TypeError", node, "None is not callable")
+        bases = None
+        for ci in classes:
+            m = self.repo.lookup_method(ci, "__init__")
+            if m is None:
+                raise Unsupported(f"dispatch table class {ci.name} has no constructor")
+            mci, mnode = m
+            qual = self.qual_of(self.repo.modules[mci.module], mci, mnode)
+            c = self.reg.contracts.get(qual)
+            if c is None:
+                raise Unsupported(f"dispatch table class {ci.name}: constructor {qual} has no contract")
+            if any(not self.exc_subclass(exc, "ValueError") for exc in c.raises):
+                raise Unsupported(f"dispatch table class {ci.name}: constructor contract allows {sorted(c.raises)}")
+            if any(not mod.strip().startswith("self.") for mod in c.modifies):
+                raise Unsupported(f"dispatch table class {ci.name}: constructor contract writes outside the new object")
+            self.used_contracts.add(qual)
+        self.may_raise(st, z3.Bool(fresh_name("ctor_raises")), "ValueError", node, "a constructor of the dispatch table rejects the body")
+        # static type of the result: the nearest class every candidate derives from
+        common = None
+        cur = classes[0]
+        seen = set()
+        while cur is not None and cur.qual not in seen:
+            seen.add(cur.qual)
+            if all(self.repo.is_subclass(c2, cur.name) for c2 in classes):
+                common = cur.name
+                break
+            nxt = None
+            for bname in cur.bases:
+                cand = self.repo.resolve_class(cur.module, bname)
+                if cand is not None:
+                    nxt = cand
+                    break
+            cur = nxt
+        if common is None:
+            raise Unsupported("dispatch table classes have no common base class")
+        ref = self.new_ref(st, "obj")
+        return V(TObj(common), ref)
 
     def eval_class_const(self, ci, name, st) -> V:
         key = (ci.qual, name)
@@ -157,6 +217,10 @@ class CallMixin:
             if attr in ci.class_consts:
                 return self.eval_class_const(ci, attr, st)
             raise Unsupported(f"class attribute {ci.name}.{attr}")
+        if kind == "class_table":
+            if attr == "get":
+                return V(TPy("class_table_get"), ("class_table_get", base.z[1]))
+            raise Unsupported(f"dispatch table .{attr}")
         if kind == "extern":
             return V(TPy("extern"), ("extern", base.z[1] + "." + base.z[2], attr))
         if kind == "exc":
@@ -210,6 +274,10 @@ class CallMixin:
             return self.call_function(st, ctx[1], fnode, args, kwargs, node, mi=ctx[0], closure_env=dict(st.locals))
         if kind == "opaque_attr":
             return self.call_opaque(fv.z[1], fv.z[2], args, kwargs, st, node)
+        if kind == "class_table_get":
+            return V(TPy("class_choice"), ("class_choice", fv.z[1], z3.Bool(fresh_name("found"))))
+        if kind == "class_choice":
+            return self.construct_any(fv.z[1], fv.z[2], args, kwargs, st, node)
         if kind == "emitter":
             return self.call_emitter(fv.z[1], fv.z[2], args, kwargs, st, node)
         raise Unsupported(f"call of python-level {kind}: {self.src(node)}")
